@@ -1,0 +1,1 @@
+//! Hooks for property C22 (empty unless needed).
